@@ -89,6 +89,19 @@ theorem legacy_pipeline {S : Type} (ri : RuneInfo) (db : Db) (score : Cmd → Op
   refine ⟨c, by simpa using hc, ?_⟩
   simpa [legacyGate] using hg
 
+/-- The CLI's last resort (`wtf <query>` when the engine returns nothing): the recovery strategies scan the
+    whole database by substring, and the CLI passes what they found through `database.FilterResults` before
+    truncating to the limit.  Whatever the strategies return (`recovered` is arbitrary), what is printed
+    satisfies both clauses.  Tie: translator sites `c04:recovery-gate`, `c04:cli-recovery-gate` and the CLI
+    stream on the real binary. -/
+theorem cli_recovery {S : Type} (ri : RuneInfo) (host : Bytes) (o : FilterOpts) (db : Db)
+    (recovered : List (Nat × S)) (limit : Nat) :
+    ∀ x ∈ (filterResults ri host o db recovered).take limit,
+      ∃ c, db[x.1]? = some c ∧ Allowed ri host o c ∧ (o.pipelineOnly = true → isPipeline ri c = true) := by
+  intro x hx
+  obtain ⟨c, hc, hp⟩ := filterResults_mem ri host o db recovered x (List.mem_of_mem_take hx)
+  exact ⟨c, hc, (passes_iff _ _ _ _).mp hp⟩
+
 /-- Cached answers: C05's theorem `Wtf.C05.transparent` states that an answer served from the cache equals
     the fresh answer of `search` for the same database, query and options; so any such answer inherits
     both clauses.  Stated here for an arbitrary answer that equals the fresh one. -/
